@@ -133,6 +133,19 @@ def _restore_tables():
         t = getattr(mod, name, None)
         if isinstance(t, dict):
             t.clear()
+    # helper tables: entries created for a library (capsule structs, array helpers, ...) are cached by name and
+    # reused by later runs in the same process, whatever that run's options say
+    from shroud import whelpers
+    for name in ("CHelpers", "FHelpers"):
+        cur = getattr(whelpers, name, None)
+        if not isinstance(cur, dict):
+            continue
+        key = ("shroud.whelpers", name)
+        if key not in _PRISTINE:
+            _PRISTINE[key] = copy.deepcopy(cur)
+        else:
+            cur.clear()
+            cur.update(copy.deepcopy(_PRISTINE[key]))
 
 
 def load_yaml(text):
